@@ -21,5 +21,5 @@ for S in $SEEDS; do
     res=$(echo "$out" | grep -o 'violations=[0-9]*\|INCONCLUSIVE[^:]*' | head -1)
     echo "$S $C $res"
   done
-  git -C /repo worktree remove --force "$WT" >/dev/null 2>&1; rm -rf "$WT" "$V"/bin/alt-*
+  git -C /repo worktree remove --force "$WT" >/dev/null 2>&1; rm -rf "$WT" "$V/bin/alt-$(echo "$WT" | sha1sum | cut -c1-10)"
 done
